@@ -102,6 +102,45 @@ def gen(rng, tier):
                "truth": {"proto": "h1", "framing": "cl", "at": len(steps), "kind": "short-body", "tag": tag, "total": declared,
                          "progress": (True, total, False), "first": False},
                "sched": {"seed": rng.randrange(1 << 30)}, "horizon": 100.0}
+    # the failure happens *inside* the application's first send: a response start the server refuses (raises into the application,
+    # which lets it propagate) - no response had been started, so the client is owed the 500
+    bad_starts = [
+        {"type": "http.response.start", "status": 200, "headers": [("x-str", "not-bytes")]},
+        {"type": "http.response.start", "status": 200, "headers": [(b"x-a", b"1\r\nx-evil: 2")]},
+        {"type": "http.response.start", "status": 200, "headers": [(b":status", b"200")]},
+        {"type": "http.response.start", "status": "200 OK", "headers": []},
+        {"type": "http.response.start", "status": 200, "headers": [(b"x bad", b"1")]},
+        {"type": "http.response.start", "status": 200, "headers": [(b"content-length", b"abc")]},
+        {"type": "http.response.start", "status": 200, "headers": [(b"x-a", 5)]},
+        {"type": "http.response.start", "headers": []},
+    ]
+    for k in range(len(bad_starts) * (1 if tier == "quick" else 6)):
+        bad = bad_starts[k % len(bad_starts)]
+        tag = 700000 + k
+        for proto in ("h1", "h2"):
+            if proto == "h2" and k % len(bad_starts) in (4, 5):
+                continue  # refused by h11 only; HTTP/2 has no reason to object
+            script = [["recv_until_end"], ["note", "crash-point"], ["send", bad], ["send", {"type": "http.response.body", "body": b"never"}]]
+            if proto == "h1":
+                first = rng.random() < 0.5
+                client = ([["feed", h1.build_request(b"GET", b"/t0", [(b"Host", b"h")])]] if first else []) + \
+                         [["feed", h1.build_request(b"POST", b"/t%d" % tag, [(b"Host", b"h")], body=b"abc", framing="cl")], ["settle"]]
+                yield {"family": "h1.bad-start", "backends": ["asyncio", "trio"], "config": {"keep_alive_timeout": 5000}, "conn": {},
+                       "apps": {"default": [["recv_until_end"], ["respond", 200, [(b"content-length", b"2")], b"ok"]], "by_tag": {str(tag): script}},
+                       "client": client,
+                       "truth": {"proto": "h1", "framing": "cl", "at": 1, "kind": "raise", "tag": tag, "total": 0, "progress": (False, 0, False),
+                                 "first": first, "bad_start": k % len(bad_starts)},
+                       "sched": {"seed": rng.randrange(1 << 30)}, "horizon": 100.0}
+            else:
+                fb = FrameBuilder()
+                blob = client_preface(fb, {}) + fb.headers(3, [(b":method", b"GET"), (b":scheme", b"http"), (b":path", b"/t%d" % tag),
+                                                               (b":authority", b"h")], end_stream=True)
+                yield {"family": "h2.bad-start", "backends": ["asyncio", "trio"], "config": {"keep_alive_timeout": 5000}, "conn": {},
+                       "apps": {"default": [["recv_until_end"], ["respond", 200, [], b"d"]], "by_tag": {str(tag): script}},
+                       "client": [["feed", blob], ["settle"]], "reactor": {"kind": "h2", "credit": "auto"},
+                       "truth": {"proto": "h2", "at": 1, "kind": "raise", "tag": tag, "sid": 3, "total": 0, "progress": (False, 0, False),
+                                 "siblings": [], "bad_start": k % len(bad_starts)},
+                       "sched": {"seed": rng.randrange(1 << 30)}, "horizon": 100.0}
     n = 0
     reps = 4 if tier == "quick" else 30
     for rep in range(reps):
